@@ -33,7 +33,9 @@ func (fr *Frame) exec(in ssa.Instruction) {
 	case *ssa.Store:
 		fr.nilCheck(i.Addr, i.Pos(), "store")
 		l := fr.locOf(i.Addr)
+		fr.curAddr = i.Addr
 		fr.guardAccess(l, true, i.Pos())
+		fr.curAddr = nil
 		fr.storeLoc(l, fr.val(i.Val).T)
 	case *ssa.FieldAddr:
 		fr.nilCheck(i.X, i.Pos(), "fieldaddr")
@@ -257,7 +259,9 @@ func (fr *Frame) execUnOp(i *ssa.UnOp) {
 	case token.MUL:
 		fr.nilCheck(i.X, i.Pos(), "load")
 		l := fr.locOf(i.X)
+		fr.curAddr = i.X
 		fr.guardAccess(l, false, i.Pos())
+		fr.curAddr = nil
 		v := fr.loadLoc(l)
 		if g, ok := i.X.(*ssa.Global); ok && fr.vc.eng.pureGlobal(g) {
 			nv := *v
